@@ -1046,7 +1046,72 @@ class ExprMixin:
         raise OutOfSubset("generator expression")
 
     def comprehension(self, e, st, fr):
-        raise OutOfSubset("comprehension (no contract)")
+        """[elt for x in L if c]  over a list L, one generator: closed form of the defining loop (order-preserving filter-map):
+        ghost sigma strictly increasing with R[k] = elt(L[sigma(k)]) and c(L[sigma(k)]); ghost tau: every i with c(L[i]) is sigma(tau(i))."""
+        if not isinstance(e, ast.ListComp) or len(e.generators) != 1 or e.generators[0].is_async or not isinstance(e.generators[0].target, ast.Name):
+            raise OutOfSubset("comprehension (unsupported shape)")
+        gen = e.generators[0]
+        var = gen.target.id
+        out = []
+        for k, s1, src in self.ev(gen.iter, st, fr):
+            if k == "raise":
+                out.append((k, s1, src))
+                continue
+            if src.ty.kind != "list":
+                raise OutOfSubset(f"comprehension over {src.ty}")
+            et = self.list_elem_ty(src)
+            x = z3.Const(V.fresh_name("cmp_x"), V.sort_of(et))
+            xv = Val(et, x)
+
+            def lift(expr, want_bool):
+                scratch = s1.copy()
+                self.assume_wf(scratch, xv)
+                scratch.env[var] = xv
+                base = len(scratch.pc)
+                saved_emit, saved_n = self.emit, len(self.vcs)
+                self.emit = False
+                try:
+                    outs = self.ev(expr, scratch, fr)
+                finally:
+                    self.emit = saved_emit
+                    del self.vcs[saved_n:]
+                term, ty = None, None
+                for kk, s2, v in reversed(outs):
+                    if kk != "val":
+                        raise OutOfSubset("comprehension part may raise")
+                    if not self.same_heap(s2, scratch):
+                        raise OutOfSubset("comprehension part with side effects")
+                    t = self.truth(v, s2) if want_bool else v.t
+                    if t is None:
+                        raise OutOfSubset("comprehension element without a term")
+                    ty = v.ty
+                    cond = z3.And(*s2.pc[base:]) if len(s2.pc) > base else z3.BoolVal(True)
+                    term = t if term is None else z3.If(cond, t, term)
+                return (lambda a: z3.substitute(term, (x, a))), ty
+            conds = [lift(c, True)[0] for c in gen.ifs]
+            eltf, elty = lift(e.elt, False)
+            keep = lambda a: z3.And(*[c(a) for c in conds]) if conds else z3.BoolVal(True)
+            s = s1.copy()
+            rty = V.ListT(elty)
+            r = self.allocate(s, rty, "comp")
+            n = self.coll_len(s.heap, src)
+            m = z3.Int(V.fresh_name("cmp_len"))
+            old = z3.Select(self.list_arr(s.heap, src), src.t)
+            new = z3.Const(V.fresh_name("cmp_el"), z3.ArraySort(z3.IntSort(), V.sort_of(elty)))
+            s.heap[("lel", V.sort_key(V.sort_of(elty)))] = z3.Store(self.list_arr(s.heap, Val(rty, r.t)), r.t, new)
+            s.heap[("llen",)] = z3.Store(self.heap_get(s.heap, ("llen",), z3.ArraySort(V.Ref, z3.IntSort())), r.t, m)
+            sg = z3.Function(V.fresh_name("cmp_sigma"), z3.IntSort(), z3.IntSort())
+            tau = z3.Function(V.fresh_name("cmp_tau"), z3.IntSort(), z3.IntSort())
+            i, j = z3.Int("cmp_i"), z3.Int("cmp_j")
+            s.assume(z3.And(0 <= m, m <= n))
+            s.assume(z3.ForAll([i], z3.Implies(z3.And(0 <= i, i < m), z3.And(0 <= sg(i), sg(i) < n, keep(z3.Select(old, sg(i))),
+                                                                              z3.Select(new, i) == eltf(z3.Select(old, sg(i))), tau(sg(i)) == i))))
+            s.assume(z3.ForAll([i, j], z3.Implies(z3.And(0 <= i, i < j, j < m), sg(i) < sg(j))))
+            s.assume(z3.ForAll([i], z3.Implies(z3.And(0 <= i, i < n, keep(z3.Select(old, i))), z3.And(0 <= tau(i), tau(i) < m, sg(tau(i)) == i))))
+            if "A-COMP" not in " ".join(self.notes):
+                self.notes.append("A-COMP: a list comprehension over a list is the order-preserving filter-map of its defining loop")
+            out.append(("val", s, Val(rty, r.t)))
+        return out
 
 
 class EnumConst:
